@@ -11,6 +11,7 @@ from astq import loc, show, strip_all, val, walk
 from core import AnalysisBroken
 from domains import KB, KBEval, type_info
 from rules import jit
+from report import memoised
 
 M64 = (1 << 64) - 1
 
@@ -250,6 +251,7 @@ def classes():
             yield 'highest set bit %d, lowest set bit %d' % (h, l), KB(32, zeros, ones)
 
 
+@memoised('A64-IMMHELP')
 def rule_immhelp(ctx, R):
     F, hs = jit.handlers(ctx, 'a64')
     cls = 'randomx::JitCompilerA64'
